@@ -964,3 +964,134 @@ pub fn xpath_grid(rest: &[&str]) -> Vec<Args> {
     }
     out
 }
+
+// ------------------------------------------------------------------------------------------------
+// C03: entity expansion in attribute values (info::attr_value_from_name).  A stack overflow aborts the process, so
+// the real call runs in a child process (this same binary, op `info.attr_value_inproc`) under a wall-clock limit.
+
+pub const ENTITY_DOCS: [&str; 12] = [
+    "<!DOCTYPE r [<!ENTITY a \"v\">]><r x=\"&a;\"/>",
+    "<!DOCTYPE r [<!ENTITY a \"&b;\"><!ENTITY b \"w\">]><r x=\"p&a;q\"/>",
+    "<!DOCTYPE r [<!ENTITY a \"&b;&b;\"><!ENTITY b \"&c;&c;\"><!ENTITY c \"z\">]><r x=\"&a;\"/>",
+    "<!DOCTYPE r [<!ENTITY a \"&#65;&#x42;\">]><r x=\"&a;&lt;\"/>",
+    "<r x=\"&lt;&amp;&gt;&quot;&apos;\"/>",
+    "<!DOCTYPE r [<!ENTITY a \"&lt;\">]><r x=\"&a;\"/>",
+    "<!DOCTYPE r [<!ENTITY a \"&b;\"><!ENTITY b \"&a;\">]><r x=\"&a;\"/>",
+    "<!DOCTYPE r [<!ENTITY a \"x&a;\">]><r x=\"&a;\"/>",
+    "<!DOCTYPE r [<!ENTITY a \"&b;\"><!ENTITY b \"&c;\"><!ENTITY c \"&a;\">]><r x=\"1\" y=\"&c;\"/>",
+    "<!DOCTYPE r [<!ENTITY a \"%p;\">]><r x=\"&a;\"/>",
+    "<!DOCTYPE r [<!ENTITY a \"&nope;\">]><r x=\"&a;\"/>",
+    "<r x=\"&nope;\"/>",
+];
+
+pub fn info_attr_value_inproc(doc: &str) -> Outcome {
+    use xml_dom::{Attr, Document, Element, NamedNodeMap, Node};
+    let observed = guard(|| {
+        let d = match xml_dom::XmlDocument::from_raw(doc) {
+            Ok((_, d)) => d,
+            Err(_) => return "parse error".to_string(),
+        };
+        let r = match d.document_element() {
+            Ok(r) => r,
+            Err(_) => return "no document element".to_string(),
+        };
+        let mut out = vec![];
+        if let Some(attrs) = r.as_node().attributes() {
+            for a in attrs.iter() {
+                let name = a.node_name();
+                out.push(format!("{}={:?}", name, a.value().map_err(|_| "Err")));
+            }
+        }
+        out.join(" ")
+    });
+    let note = if observed.starts_with("PANIC") { format!("panicked at {}", crate::LAST_PANIC_AT.lock().unwrap()) } else { String::new() };
+    let expected = if observed.starts_with("PANIC") { "a value or an error for every attribute".to_string() } else { observed.clone() };
+    Outcome { observed, expected, note }
+}
+
+pub fn info_attr_value(doc: &str) -> Outcome {
+    in_child("info.attr_value_inproc", doc, "a value or an error for every attribute", "info/src/lib.rs attr_value_from_name")
+}
+
+// C03: parse + information set + compact print + pretty print of one document
+pub const BUILD_DOCS: [&str; 12] = [
+    "<r/>",
+    "<?xml version=\"1.0\"?><!-- c --><r a=\"1\"><b>t</b><![CDATA[x]]><?p q?></r>",
+    "<!DOCTYPE r [<!ELEMENT r (a|b)*><!ATTLIST r x CDATA #IMPLIED><!ENTITY e \"v\"><!NOTATION n SYSTEM \"s\"><?p q?><!-- c -->]><r x=\"&e;\">&e;</r>",
+    "<!DOCTYPE r SYSTEM \"r.dtd\"><r/>",
+    "<!DOCTYPE r [<!ENTITY % p \"v\">]><r/>",
+    "<!DOCTYPE r [<!ENTITY % p SYSTEM \"p.ent\">]><r/>",
+    "<!DOCTYPE r [<!ENTITY % p \"v\"> %p; ]><r/>",
+    "<!DOCTYPE r [ %p; ]><r/>",
+    "<!DOCTYPE r [<!ENTITY a \"&b;\"><!ENTITY b \"&a;\">]><r x=\"&a;\">&a;</r>",
+    "<!DOCTYPE r [<!ELEMENT r ((((a,b)|c)*,d)+)>]><r/>",
+    "<r xmlns:p=\"u\"><p:a p:b=\"1\"/></r>",
+    "not xml",
+];
+
+pub fn info_build_print_inproc(doc: &str) -> Outcome {
+    use xml_dom::{AsNode, PrettyPrint};
+    let observed = guard(|| match xml_dom::XmlDocument::from_raw(doc) {
+        Ok((rest, d)) => {
+            let compact = d.to_string();
+            let mut buf: Vec<u8> = vec![];
+            let pretty = d.as_node().pretty(&mut buf).is_ok();
+            format!("Ok(rest={} compact={} pretty={}/{})", rest.len(), compact.len(), pretty, buf.len())
+        }
+        Err(_) => "Err".to_string(),
+    });
+    let note = if observed.starts_with("PANIC") { format!("panicked at {}", crate::LAST_PANIC_AT.lock().unwrap()) } else { String::new() };
+    let expected = if observed.starts_with("PANIC") { "a document (printed both ways) or an error".to_string() } else { observed.clone() };
+    Outcome { observed, expected, note }
+}
+
+pub fn info_build_print(doc: &str) -> Outcome {
+    in_child("info.build_print_inproc", doc, "a document (printed both ways) or an error", "parse / information set / print")
+}
+
+fn in_child(op: &str, doc: &str, want: &str, site: &str) -> Outcome {
+    use std::io::Read;
+    use std::process::{Command, Stdio};
+    let exe = std::env::current_exe().unwrap();
+    let mut child = Command::new(exe)
+        .args(["run", op, &format!("doc={}", crate::esc(doc))])
+        .stdout(Stdio::piped())
+        .stderr(Stdio::piped())
+        .spawn()
+        .unwrap();
+    let start = std::time::Instant::now();
+    let status = loop {
+        match child.try_wait().unwrap() {
+            Some(s) => break Some(s),
+            None if start.elapsed().as_secs() >= 20 => {
+                let _ = child.kill();
+                let _ = child.wait();
+                break None;
+            }
+            None => std::thread::sleep(std::time::Duration::from_millis(5)),
+        }
+    };
+    let mut so = String::new();
+    let mut se = String::new();
+    let _ = child.stdout.take().unwrap().read_to_string(&mut so);
+    let _ = child.stderr.take().unwrap().read_to_string(&mut se);
+    let field = |k: &str| so.lines().find_map(|l| l.trim().strip_prefix(k).map(|v| v.to_string()));
+    let want = want.to_string();
+    match status {
+        None => Outcome { observed: "HANG(no result within 20 s)".into(), expected: want, note: site.to_string() },
+        Some(s) if s.code().is_some() => {
+            let observed = field("observed=").unwrap_or_else(|| format!("child exit {:?} without a result", s.code()));
+            let expected = field("expected=").unwrap_or_else(|| want.clone());
+            Outcome { observed, expected, note: field("note=").unwrap_or_default() }
+        }
+        Some(s) => {
+            use std::os::unix::process::ExitStatusExt;
+            let why = if se.contains("overflowed its stack") { "stack overflow" } else { "killed" };
+            Outcome {
+                observed: format!("ABORT(signal {}: {})", s.signal().unwrap_or(0), why),
+                expected: want,
+                note: format!("unbounded recursion in {}", site),
+            }
+        }
+    }
+}
